@@ -90,7 +90,7 @@ def run_case(doc, fmt, name, preexisting, fault, scratch):
     expected = ref.getvalue()
     if preexisting:
         with open(target_abs, "wb") as fh:
-            fh.write(b"PREVIOUS CONTENT")
+            fh.write(b"PREVIOUS CONTENT " * 20000)      # longer than any document written over it
     before = snapshot(work)
     fails = []
     writes = [0]
